@@ -144,7 +144,10 @@ func (k Keeper) RecvPacket(
 		}
 
 		if _, found = k.clientKeeper.GetClientState(ctx, packet.GetDestChain()); !found {
-			return errorsmod.Wrap(clienttypes.ErrClientNotFound, fromChain)
+			// a destination this relay chain does not know is refused like an
+			// unauthorised route: the caller records an error acknowledgement
+			// that travels back to the source instead of stranding the packet
+			return sdkerrors.ErrUnauthorized
 		}
 
 		k.SetPacketCommitment(ctx, packet.GetSourceChain(), packet.GetDestChain(), packet.GetSequence(), commitment)
